@@ -120,7 +120,7 @@ pub fn judge(_part: &str, case: &Case, tally: &mut Tally) -> Verdict {
 
 const CHARS: [char; 24] = ['a', 'b', 'c', 'x', 'y', 'z', 'A', 'Z', '0', '9', '!', '~', '`', 'q', ' ', ' ', 'é', 'ß', '世', '界', '─', '│', '😀', '\u{a1}'];
 
-fn gen_line(src: &mut Src, w: usize) -> String {
+pub fn gen_line(src: &mut Src, w: usize) -> String {
     let len = match src.below(12) {
         0 => 0,
         1 => 1,
@@ -145,7 +145,7 @@ fn gen_line(src: &mut Src, w: usize) -> String {
     s
 }
 
-fn gen_case(src: &mut Src, _i: usize) -> Case {
+pub fn gen_case(src: &mut Src, _i: usize) -> Case {
     let w = src.range(1, 24);
     let h = src.range(1, 8);
     let n = src.range(0, 30);
